@@ -6,12 +6,13 @@ props = [json.loads(l) for l in open(os.path.join(ROOT, 'properties.jsonl'))]
 ids = [p['id'] for p in props]
 checks = []
 claimed = set()
+allow = set(open(os.path.join(ROOT, 'props', 'claimed.txt')).read().split())
 for pid in ids:
     path = os.path.join(ROOT, 'props', pid + '.json')
     if not os.path.exists(path):
         continue
     P = json.load(open(path))
-    if not P.get('claimed', True):
+    if pid not in allow:
         continue
     claimed.add(pid)
     c = dict(property_id=pid,
